@@ -20,6 +20,7 @@ func runC17(c *Ctx) {
 	c.Rule("P2 truncation-is-an-error: in the container parser every branch taken when a declared chunk size exceeds the remaining bytes ends in a return of a non-nil error (no clamp, break or continue)")
 	c.Rule("P3 success-implies-frame: every success return of the methods of container.Parser reachable from parse is reached only through a block that appends to Parser.frames or through a branch whose condition tests len(Parser.frames) or the animation flag")
 	c.Rule("P4 single reader: Decode, DecodeConfig and GetFeatures hand the input bytes to container.NewParser only")
+	c.Rule("P5 input untouched: the container parser never appends to, stores into, copies over or clears its input slice or anything re-sliced from it")
 	c.NotCovered("behaviour of the VP8/VP8L/ALPH decoders on a payload that is shorter than its own internal structure needs (bit-reader end-of-stream handling): value-level, needs execution")
 	c.NotCovered("files cut inside the image chunk whose remaining bytes still satisfy the container checks are rejected by P1 only because the declared chunk size no longer fits; prefixes cut exactly at a chunk boundary after the image chunk parse to the same frames")
 	rows, err := loadReview(filepath.Join(c.Verif, "tables", "bounds.txt"))
@@ -37,7 +38,118 @@ func runC17(c *Ctx) {
 		c17Truncation(c, p)
 		c17SuccessFrame(c, p)
 		c17SingleReader(c, p)
+		c17InputUntouched(c, p)
 	}
+}
+
+// P5: the parsers decide on the bytes they were given and nothing else: the input slice of
+// container.NewParser / (*Parser).parse (and everything re-sliced from it, through calls) is never
+// extended (append), overwritten (element store, copy destination) or cleared. A parser that pads
+// or patches its input can turn a truncated file into one that parses.
+func c17InputUntouched(c *Ctx, p *Program) {
+	pk := p.SSAPkg("internal/container")
+	if pk == nil {
+		c.AnchorMissing("P5-input-untouched", "package internal/container")
+		return
+	}
+	in := map[ssa.Value]bool{}
+	var roots int
+	for _, name := range []string{"NewParser", "Parser.parse"} {
+		fn := p.Fn("internal/container", name)
+		if fn == nil {
+			continue
+		}
+		for _, prm := range fn.Params {
+			if isByteSlice(prm.Type()) {
+				in[prm] = true
+				roots++
+			}
+		}
+	}
+	if roots == 0 {
+		c.AnchorMissing("P5-input-untouched", "byte-slice parameters of container.NewParser / (*Parser).parse")
+		return
+	}
+	funcs := p.SrcFuncs()
+	for changed := true; changed; {
+		changed = false
+		mark := func(v ssa.Value) {
+			if !in[v] {
+				in[v] = true
+				changed = true
+			}
+		}
+		for _, fn := range funcs {
+			if fn.Pkg != pk {
+				continue
+			}
+			for _, b := range fn.Blocks {
+				for _, ins := range b.Instrs {
+					switch x := ins.(type) {
+					case *ssa.Slice:
+						if in[x.X] {
+							mark(x)
+						}
+					case *ssa.Phi:
+						for _, e := range x.Edges {
+							if in[e] {
+								mark(x)
+							}
+						}
+					case *ssa.Call:
+						cal := x.Call.StaticCallee()
+						if cal == nil || cal.Pkg != pk || cal.Blocks == nil {
+							continue
+						}
+						for i, a := range x.Call.Args {
+							if in[a] && i < len(cal.Params) {
+								mark(cal.Params[i])
+							}
+						}
+					}
+				}
+			}
+		}
+	}
+	bad, n := 0, 0
+	for _, fn := range funcs {
+		if fn.Pkg != pk {
+			continue
+		}
+		for _, b := range fn.Blocks {
+			for _, ins := range b.Instrs {
+				switch x := ins.(type) {
+				case *ssa.Store:
+					if ia, ok := x.Addr.(*ssa.IndexAddr); ok && in[ia.X] {
+						bad++
+						c.Fail("P5-input-untouched", fmt.Sprintf("%s:store#%d", fn.Name(), bad), p.Pos(x.Pos()), fn.Name()+" writes into the input buffer it is parsing")
+					}
+				case *ssa.Call:
+					bi, ok := x.Call.Value.(*ssa.Builtin)
+					if !ok || len(x.Call.Args) == 0 {
+						continue
+					}
+					n++
+					switch bi.Name() {
+					case "append":
+						if in[x.Call.Args[0]] {
+							bad++
+							c.Fail("P5-input-untouched", fmt.Sprintf("%s:append#%d", fn.Name(), bad), p.Pos(x.Pos()), fn.Name()+" appends to the input it is parsing: bytes that are not in the file take part in the decision whether (and as what) the file parses, so a truncated prefix can be accepted")
+						}
+					case "copy", "clear":
+						if in[x.Call.Args[0]] {
+							bad++
+							c.Fail("P5-input-untouched", fmt.Sprintf("%s:%s#%d", fn.Name(), bi.Name(), bad), p.Pos(x.Pos()), fn.Name()+" overwrites the input buffer it is parsing")
+						}
+					}
+				}
+			}
+		}
+	}
+	if bad == 0 {
+		c.Pass("P5-input-untouched", "container-input", "", fmt.Sprintf("no append, store, copy or clear targets the parser's input or a slice of it (%d values followed)", len(in)))
+	}
+	c.Floor("P5-input-untouched", len(in), 10)
 }
 
 // parseFamily: methods of container.Parser with an error result, reachable from parse,
